@@ -379,41 +379,67 @@ class PostprocessPlainBool(Contract):
 
 class CheckCall(Contract):
     """Check.__call__(check_obj, column): the back end registered for the object's type, built on THIS check, called once with the
-    object and the column; its result returned."""
+    object and the column; its result returned.  The check FUNCTION is the user's own function, whatever the check is called
+    (`name` only names: C19) - only the dispatcher of a built-in check may be refreshed from the registry, by the entry of its name."""
 
     target = f"{CHECK}.__call__"
     raises = (KeyError,)
+    split = {"fn": ["user_function", "builtin_dispatcher"], "name": ["none", "given"]}
 
     def setup(self, I):
         PL.install(I)
 
     def make_args(self):
+        from pandera.api.function_dispatch import Dispatcher
+
         be_result = T.Lazy(lambda n: SAny(name=n))
         be_cls = T.Callback(T.Callback(be_result, raises=False), raises=False)  # get_backend(obj) -> class; class(check) -> backend; backend(obj, col) -> result
-        chk = T.Ref(None, name=T.Const(None), _check_fn=T.Any, get_backend=T.Callback(be_cls, raises=True), is_builtin_check=T.Callback(T.Bool, raises=False),
-                    get_builtin_check_fn=T.Callback(T.Any, raises=False)).fresh("check")
+        user = self.fixed.get("fn", "user_function") == "user_function"
+        fn0 = T.Callback(T.Any).fresh("user_check_fn") if user else Obj(Dispatcher, "dispatcher_at_entry", pre=True)
+        registry_entry = Obj(Dispatcher, "registry_entry", pre=True)
+        name = None if self.fixed.get("name", "none") == "none" else T.fresh_value(T.Str, "name")
+        chk = T.Ref(None, get_backend=T.Callback(be_cls, raises=True), is_builtin_check=T.Callback(T.Bool, raises=False),
+                    get_builtin_check_fn=T.Callback(T.Lazy(lambda n: registry_entry), raises=False)).fresh("check")
+        for a, v in (("name", name), ("_check_fn", fn0)):
+            chk.attrs[a] = v
+            chk.attrs0[a] = v
+        cur().ghost.update(fn0=fn0, registry_entry=registry_entry)
         return {"self": chk, "check_obj": SAny(name="check_obj"), "column": T.fresh_value(T.Opt(T.Label), "column")}
+
+    def modifies(self, self_, check_obj, column):
+        return [(self_, "_check_fn")]  # (what it may become is the post below)
 
     def call_target(self, I, fn, a):
         I.callback_raise_classes = [KeyError]
         return I.call(fn, [a["self"], a["check_obj"], a["column"]], {})
 
+    def _fn_posts(self, self_):
+        g = cur().ghost
+        now = fld(self_, "_check_fn")
+        if self.fixed.get("fn", "user_function") == "user_function":
+            return {"a_user_function_is_never_replaced_whatever_the_name": now is g["fn0"]}
+        asked = fld0(self_, "get_builtin_check_fn").calls
+        return {"a_dispatcher_is_refreshed_only_by_the_registry_entry_of_its_name": now is g["fn0"] or (now is g["registry_entry"] and len(asked) == 1
+                                                                                                   and asked[0][0][0] is fld0(self_, "name"))}
+
     def ensures(self, result, old, self_, check_obj, column):
         gb = fld0(self_, "get_backend")
-        ev = [e for e in cur().events if e[0] == "callback"]
+        ev = [e for e in cur().events if e[0] == "callback" and e[1].split(".")[-1].split("#")[0] not in ("is_builtin_check", "get_builtin_check_fn")]
         names = [e[1] for e in ev]
         out = {"backend_looked_up_once_for_the_object": len(gb.calls) == 1 and len(gb.calls[0][0]) == 1 and gb.calls[0][0][0] is check_obj}
-        # the chain: get_backend(obj) -> cls ; cls(self) -> backend ; backend(obj, column) -> result
         out["three_calls_in_a_chain"] = len(ev) == 3
         if len(ev) == 3:
             out["backend_built_on_this_check"] = len(ev[1][3]) == 1 and ev[1][3][0] is self_
             out["backend_called_with_the_object_and_the_column"] = len(ev[2][3]) == 2 and ev[2][3][0] is check_obj and ev[2][3][1] is column
             out["chained"] = names[1].startswith(names[0]) and names[2].startswith(names[1])
         out["returns_the_backends_result"] = isinstance(result, SAny)
+        out.update(self._fn_posts(self_))
         return out
 
     def on_raise(self, exc, old, self_, check_obj, column):
-        return {"only_the_backend_lookup_raises": exc.attrs.get("__from_callback__") is not None}
+        out = {"only_the_backend_lookup_raises": exc.attrs.get("__from_callback__") is not None}
+        out.update(self._fn_posts(self_))
+        return out
 
 
 # ---- bounded stand-in for postprocess_table (table-shaped output) -----------------------------------------------
